@@ -94,7 +94,36 @@ def policy : List ((String × String) × Policy) := [
   (("queryEvent", "done"), .setup [])
 ]
 
-def policyOf (s f : String) : Option Policy := policy.lookup (s, f)
+/-- The other packages C16 names.  `MemLogger` guards its buffer (and the `log.Logger` writing into
+it) with its own mutex; everything else is configuration written only by its setter (documented as
+set-up, before the value is shared) or at construction. -/
+def extPolicy : List ((String × String) × Policy) := [
+  (("logger.MemLogger", "b"), .guarded []),
+  (("logger.MemLogger", "log"), .guarded ["MemLogger.SetFlags"]),   -- SetFlags: set-up; log.Logger locks itself
+  (("logger.MemLogger", "logInfo"), .setup ["MemLogger.SetInfo"]),
+  (("logger.MemLogger", "logErr"), .setup ["MemLogger.SetErr"]),
+  (("logger.MemLogger", "logTrace"), .setup ["MemLogger.SetTrace"]),
+  (("logger.StdLogger", "log"), .setup []),
+  (("logger.StdLogger", "logInfo"), .setup ["StdLogger.SetInfo"]),
+  (("logger.StdLogger", "logErr"), .setup ["StdLogger.SetErr"]),
+  (("logger.StdLogger", "logTrace"), .setup ["StdLogger.SetTrace"]),
+  (("badgerstore.Store", "DB"), .setup []),
+  (("badgerstore.Store", "typ"), .setup ["Store.SetType"]),
+  (("badgerstore.Store", "t"), .setup ["Store.SetType"]),
+  (("badgerstore.Store", "useMarshal"), .setup ["Store.SetType"]),
+  (("badgerstore.Store", "kl"), .setup []),
+  (("badgerstore.Store", "prefix"), .setup ["Store.SetPrefix"]),
+  (("badgerstore.Store", "beforeChange"), .setup ["Store.BeforeChange"]),
+  (("badgerstore.Store", "onChange"), .setup ["Store.OnChange"]),
+  (("badgerstore.QueryStore", "st"), .setup []),
+  (("badgerstore.QueryStore", "tq"), .setup []),
+  (("badgerstore.QueryStore", "iq"), .setup []),
+  (("badgerstore.QueryStore", "log"), .setup ["QueryStore.SetLogger"]),
+  (("badgerstore.QueryStore", "idxs"), .setup ["QueryStore.AddIndex"]),
+  (("badgerstore.QueryStore", "onQueryChange"), .setup ["QueryStore.OnQueryChange"])
+]
+
+def policyOf (s f : String) : Option Policy := (policy ++ extPolicy).lookup (s, f)
 
 def accOk (a : Acc) : Bool :=
   match policyOf a.strct a.field with
